@@ -328,12 +328,23 @@ func (e *Engine) cmdCheck(prop, tier, evid, known, replayDir string, replay bool
 	solverSec := 0.0
 	var samples []map[string]interface{}
 	undecided, knownSeen := []string{}, []string{}
+	// a function with an obligation that is not discharged goes on under the assumption that it holds; when that
+	// is plainly false (a constant argument) its later assumptions are contradictory for that reason, and the
+	// failed obligation is what gets reported
+	hasOpen := map[string]bool{}
+	for _, ob := range all {
+		if ob.Kind != "canary" && ob.Status != "proved" && ob.Status != "trivial" {
+			hasOpen[ob.Fn] = true
+		}
+	}
 	for _, ob := range all {
 		if ob.Kind == "canary" {
 			switch ob.Status {
 			case "failed", "unknown": // satisfiable (or not refuted): good
 			default:
-				e.toolErrors = append(e.toolErrors, "VACUOUS: the assumptions of "+ob.Fn+" are contradictory (canary proved)")
+				if !hasOpen[ob.Fn] {
+					e.toolErrors = append(e.toolErrors, "VACUOUS: the assumptions of "+ob.Fn+" are contradictory (canary proved)")
+				}
 			}
 			continue
 		}
